@@ -125,6 +125,8 @@ def run(chk, tier, seed):
     strings += [''.join(t) for t in itertools.product(SMALL, repeat=3)] if tier != 'quick' else [''.join(rnd.choice(SMALL) for _ in range(3)) for _ in range(300)]
     strings += ['c:/a*', '//host/share/a[b', '//?/UNC/h/s/x*', '//?/c:/x|y', 'c:', '//h/s', 'a/./b', './a', '../*', 'a//b/', '/abs/*x', '~user/x', '-a', '!a', 'a\\b', 'a\\\\b', '.\n',
                 '//?/UNC/server/sh*re/file', '//./UNC/se[r]ver/share/f', '//?/GLOBAL/UNC/h/s?/x', '//?/unc/h/s(a)/x', '//?/Unc/h*/s/x',
+                # three or more leading separators are NOT a UNC prefix: the metacharacters behind them are ordinary magic
+                '///[a]/x', '///srv*/share?/f', '////h/s*/x', '\\\\\\[a]\\x', '///a/b(c)/d|e',
                 ''.join(rnd.choice(ALPHA) for _ in range(8)), ''.join(rnd.choice(ALPHA) for _ in range(12))]
     for c in '*?[(|{!-~':
         strings += ['a//' + c + 'b', 'a\\/' + c + 'b', 'a/\\' + c, 'a///' + c, 'a/' + c + '//' + c, c + '//' + c]
